@@ -79,6 +79,26 @@ def build_go(cmds):
     return True, ""
 
 
+def build_go_race():
+    """the K/A-layer driver built with the Go race detector (C08)"""
+    with BuildLock():
+        sync_gomod()
+        out = os.path.join(BUILD, "kdrive-race")
+        tmp = out + ".new.%d" % os.getpid()
+        for attempt in range(3):
+            rc, so, se = sh(["go", "build", "-race", "-tags", "verif", "-o", tmp, "./cmd/kdrive"], cwd=HARNESS, env=GOENV, timeout=2400)
+            if rc != 0 and RESOURCE_RX.search(so + se) and attempt < 2:
+                time.sleep(20)
+                continue
+            break
+        if rc != 0:
+            if os.path.exists(out):
+                os.remove(out)
+            return False, (so + se)[-2000:]
+        os.replace(tmp, out)
+    return True, ""
+
+
 def build_lean(targets):
     with BuildLock():
         for attempt in range(4):
@@ -468,6 +488,37 @@ def check_property(pid, tier, seed):
     with ThreadPoolExecutor(max_workers=min(16, max(1, len(jobs)))) as ex:
         futs = [ex.submit(run_stream, *j) for j in jobs]
         runs = [f.result() for f in futs]
+
+    # 2b. C08 "free of data races": the proposal streams once more under the Go race detector (a search tool: it
+    # exhibits a schedule; the claim itself is carried by the footprint theorem no_conflicting_access)
+    if P.get("race"):
+        rc_ = P["race"]
+        rok, rout = build_go_race()
+        if not rok:
+            notes.append("race build failed: " + rout[-300:])
+        else:
+            nrace = rc_["quick"] if tier == "quick" else rc_["thorough"]
+            rseeds = 1 if tier == "quick" else rc_.get("seeds", 4)
+            def race_one(k):
+                cmd = [os.path.join(BUILD, "kdrive-race"), "-stream", rc_["stream"], "-seed", str(seed + 1000003 * k), "-n", str(nrace)]
+                try:
+                    p_ = subprocess.run(cmd, stdout=subprocess.DEVNULL, stderr=subprocess.PIPE, text=True, timeout=3000,
+                                        env=dict(os.environ, GORACE="halt_on_error=0", GOMEMLIMIT="8GiB"))
+                    return seed + 1000003 * k, p_.stderr
+                except subprocess.TimeoutExpired:
+                    return seed + 1000003 * k, ""
+            with ThreadPoolExecutor(max_workers=4) as ex:
+                for sd, err in ex.map(race_one, range(rseeds)):
+                    if "WARNING: DATA RACE" in err:
+                        rep = err[err.index("WARNING: DATA RACE"):][:3000]
+                        hdr = {"property": pid, "stream": rc_["stream"], "binary": "kdrive-race", "seed": sd, "n": nrace, "regen": "1", "kind": "race",
+                               "detail": "the Go race detector reports a data race while proposals are built / checked: " + rep.replace("\n", " | "),
+                               "theorem": "Goat.C08.no_conflicting_access",
+                               "how": "cd harness && go build -race -tags verif -o ../.build/kdrive-race ./cmd/kdrive && ../.build/kdrive-race -stream %s -seed %d -n %d" % (rc_["stream"], sd, nrace)}
+                        path = write_replay(pid, "race", hdr, [])
+                        violations.append((path, ""))
+                        break
+            notes.append("race detector: stream %s, %d op(s) x %d seed(s)" % (rc_["stream"], nrace, rseeds))
 
     mon = monitors.MONITORS.get(pid, monitors.default_monitor)
     soft_total = 0
